@@ -242,22 +242,53 @@ Qed.
 (* ---------- UpdatableRandomRange ---------- *)
 
 
+Definition gs_start (gs : gstate) : Z := match gs with GNew a _ => a | GRun g => g_start g end.
+Definition gs_size (gs : gstate) : Z := match gs with GNew a b => b - a | GRun g => g_size g end.
+Definition GSinv (gs : gstate) (em : list Z) : Prop :=
+  match gs with GNew _ _ => em = [] | GRun g => Ginv g em end.
+
 Record Uinv (u : urr) (prev em : list Z) : Prop := {
-  ui_g : Ginv (u_gen u) em;
-  ui_min : g_start (u_gen u) = u_min u;
-  ui_omax : g_start (u_gen u) + g_size (u_gen u) = u_orig_max u;
-  ui_pos : 1 <= g_size (u_gen u);
+  ui_g : GSinv (u_gen u) em;
+  ui_min : gs_start (u_gen u) = u_min u;
+  ui_omax : gs_start (u_gen u) + gs_size (u_gen u) = u_orig_max u;
+  ui_pos : 1 <= gs_size (u_gen u);
   ui_cmax : u_orig_max u <= u_cur_max u;
   ui_lo : u_start u <= u_min u;
   ui_prev : forall v, In v prev -> u_start u <= v < u_min u;
   ui_nd : NoDup prev
 }.
 
+Lemma GSinv_emitted gs em :
+  GSinv gs em -> NoDup em /\ forall v, In v em -> gs_start gs <= v < gs_start gs + gs_size gs.
+Proof.
+  destruct gs as [a b|g]; cbn [GSinv gs_start gs_size].
+  - intros ->. split; [constructor|intros v []].
+  - apply Ginv_emitted.
+Qed.
+
+(* starting the generator keeps the invariant *)
+Lemma force_inv u prev em g orc :
+  Uinv u prev em -> force u = Ok (g, orc) ->
+  Ginv g em /\ g_start g = u_min u /\ g_start g + g_size g = u_orig_max u /\ 1 <= g_size g.
+Proof.
+  intros I H. unfold force in H.
+  pose proof (ui_g _ _ _ I) as Hg. pose proof (ui_min _ _ _ I) as Hmin.
+  pose proof (ui_omax _ _ _ I) as Homax. pose proof (ui_pos _ _ _ I) as Hpos.
+  destruct (u_gen u) as [a b|g0]; cbn [GSinv gs_start gs_size] in *.
+  - destruct (u_oracle u) as [|[v0 o0] rest]; [discriminate|].
+    destruct (new_gen a b v0 o0) as [g1|e] eqn:Hn; [|discriminate]. cbn [bind] in H.
+    injection H as <- <-. subst em.
+    assert (Hab : a < b) by lia.
+    destruct (new_gen_ok _ _ _ _ _ Hab Hn) as (_ & _ & _ & Hst & Hsz).
+    split; [eapply new_gen_Ginv; eassumption|]. rewrite Hst, Hsz. splits; lia.
+  - injection H as <- <-. splits; assumption.
+Qed.
+
 Lemma Uinv_all u prev em :
   Uinv u prev em ->
   NoDup (prev ++ em) /\ forall v, In v (prev ++ em) -> u_start u <= v < u_orig_max u.
 Proof.
-  intros I. destruct (Ginv_emitted _ _ (ui_g _ _ _ I)) as [Hnd Hrange].
+  intros I. destruct (GSinv_emitted _ _ (ui_g _ _ _ I)) as [Hnd Hrange].
   pose proof (ui_min _ _ _ I). pose proof (ui_omax _ _ _ I). pose proof (ui_pos _ _ _ I).
   pose proof (ui_lo _ _ _ I).
   split.
@@ -270,19 +301,15 @@ Qed.
 
 Lemma set_immediately_inv a b oracle u :
   set_immediately a b oracle = Ok u ->
-  u_start u = a /\ u_min u = a /\ u_cur_max u = b /\
-  Uinv u [] [] /\ g_start (u_gen u) = a.
+  u_start u = a /\ u_min u = a /\ u_cur_max u = b /\ Uinv u [] [].
 Proof.
   intros H. unfold set_immediately in H.
   destruct (negb (a <? b)) eqn:E; [discriminate|]. apply negb_false_iff in E.
-  destruct oracle as [|[v0 o0] rest]; [discriminate|].
-  destruct (new_gen a b v0 o0) as [g|e] eqn:Hg; [|discriminate]. cbn [bind] in H.
-  injection H as <-. cbn [u_start u_min u_cur_max u_gen u_orig_max].
   assert (Hab : a < b) by (apply Z.ltb_lt; exact E).
-  destruct (new_gen_ok _ _ _ _ _ Hab Hg) as ((Hs1 & _) & _ & _ & Hst & Hsz).
-  split; [reflexivity|]. split; [reflexivity|]. split; [reflexivity|]. split; [|exact Hst].
-  constructor; cbn [u_start u_min u_cur_max u_gen u_orig_max]; try lia.
-  - eapply new_gen_Ginv; eassumption.
+  injection H as <-. cbn [u_start u_min u_cur_max u_gen u_orig_max].
+  split; [reflexivity|]. split; [reflexivity|]. split; [reflexivity|].
+  constructor; cbn [u_start u_min u_cur_max u_gen u_orig_max GSinv gs_start gs_size]; try lia.
+  - reflexivity.
   - intros v [].
   - constructor.
 Qed.
@@ -297,46 +324,54 @@ Lemma urr_next_inv u prev em r u' :
   (exists v, r = Some v /\ Uinv u' prev (em ++ [v]) /\
              u_start u' = u_start u /\ u_min u' = u_min u /\ u_cur_max u' = u_cur_max u /\
              u_orig_max u' = u_orig_max u) \/
-  (r = None /\ u' = u /\ u_cur_max u = u_orig_max u /\
+  (r = None /\ Uinv u' prev em /\
+   u_start u' = u_start u /\ u_min u' = u_min u /\ u_cur_max u' = u_cur_max u /\
+   u_orig_max u' = u_orig_max u /\ u_cur_max u = u_orig_max u /\
    Permutation em (Zseq (u_min u) (Z.to_nat (u_orig_max u - u_min u)))) \/
   (exists v, r = Some v /\ Uinv u' (prev ++ em) [v] /\
              u_start u' = u_start u /\ u_min u' = u_orig_max u /\ u_cur_max u' = u_cur_max u /\
              Permutation em (Zseq (u_min u) (Z.to_nat (u_orig_max u - u_min u)))).
 Proof.
   intros I H. unfold urr_next in H.
-  pose proof (Ginv_next _ _ (ui_g _ _ _ I)) as HN.
-  pose proof (ui_min _ _ _ I) as Hmin. pose proof (ui_omax _ _ _ I) as Homax.
-  pose proof (ui_pos _ _ _ I) as Hpos. pose proof (ui_cmax _ _ _ I) as Hcmax.
-  pose proof (ui_lo _ _ _ I) as Hlo.
-  destruct (gen_next (gen_fuel (u_gen u)) (u_gen u)) as [[[v g']|]|e]; [| |contradiction];
+  destruct (force u) as [[g0 orc]|e] eqn:Hf; [|discriminate]. cbn [bind] in H.
+  destruct (force_inv _ _ _ _ _ I Hf) as (HG0 & Hmin & Homax & Hpos).
+  pose proof (Ginv_next _ _ HG0) as HN.
+  pose proof (ui_cmax _ _ _ I) as Hcmax. pose proof (ui_lo _ _ _ I) as Hlo.
+  destruct (gen_next (gen_fuel g0) g0) as [[[v g']|]|e]; [| |contradiction];
     cbn [bind] in H.
   - (* yield from the current generator *)
     left. injection H as <- <-. destruct HN as [HG Hp]. exists v.
     unfold params in Hp. injection Hp as Hp1 Hp2 _ _ _.
     split; [reflexivity|]. split; [|cbn [u_start u_min u_cur_max u_gen u_orig_max]; splits; reflexivity].
-    constructor; cbn [u_start u_min u_cur_max u_gen u_orig_max]; try assumption; try lia.
+    constructor; cbn [u_start u_min u_cur_max u_gen u_orig_max GSinv gs_start gs_size];
+      try assumption; try lia.
     + apply (ui_prev _ _ _ I).
     + apply (ui_nd _ _ _ I).
   - assert (HPem : Permutation em (Zseq (u_min u) (Z.to_nat (u_orig_max u - u_min u)))).
     { rewrite <- Hmin, <- Homax.
-      replace (g_start (u_gen u) + g_size (u_gen u) - g_start (u_gen u))
-        with (g_size (u_gen u)) by lia. exact HN. }
+      replace (g_start g0 + g_size g0 - g_start g0) with (g_size g0) by lia. exact HN. }
     destruct (u_cur_max u <=? u_orig_max u) eqn:E.
-    + right. left. injection H as <- <-. splits; try reflexivity; try assumption. lia.
+    + right. left. injection H as <- <-.
+      split; [reflexivity|].
+      split; [|cbn [u_start u_min u_cur_max u_gen u_orig_max]; splits; try reflexivity; try assumption; lia].
+      constructor; cbn [u_start u_min u_cur_max u_gen u_orig_max GSinv gs_start gs_size];
+        try assumption; try lia.
+      * apply (ui_prev _ _ _ I).
+      * apply (ui_nd _ _ _ I).
     + right. right. apply Z.leb_gt in E.
-      destruct (u_oracle u) as [|[v0 o0] rest]; [discriminate|].
+      destruct orc as [|[v0 o0] rest]; [discriminate|].
       destruct (new_gen (u_orig_max u) (u_cur_max u) v0 o0) as [g|e] eqn:Hg; [|discriminate].
       cbn [bind] in H.
-      pose proof (new_gen_Ginv _ _ _ _ _ E Hg) as HG0.
+      pose proof (new_gen_Ginv _ _ _ _ _ E Hg) as HGn.
       destruct (new_gen_ok _ _ _ _ _ E Hg) as (Hok & _ & _ & Hst & Hsz).
-      pose proof (Ginv_next _ _ HG0) as HN2.
+      pose proof (Ginv_next _ _ HGn) as HN2.
       destruct (gen_next (gen_fuel g) g) as [[[v g']|]|e]; [| |contradiction]; cbn [bind] in H.
       * injection H as <- <-. destruct HN2 as [HG Hp]. exists v.
         unfold params in Hp. injection Hp as Hp1 Hp2 _ _ _.
         destruct (Uinv_all _ _ _ I) as [Hnd Hall].
         split; [reflexivity|].
         split; [|cbn [u_start u_min u_cur_max u_gen u_orig_max]; splits; try reflexivity; assumption].
-        constructor; cbn [u_start u_min u_cur_max u_gen u_orig_max app] in *;
+        constructor; cbn [u_start u_min u_cur_max u_gen u_orig_max app GSinv gs_start gs_size] in *;
           try assumption; try lia.
       * (* impossible: the fresh generator has a non-empty range *)
         exfalso. apply Permutation_length in HN2. rewrite Zseq_length in HN2. cbn in HN2. lia.
@@ -359,7 +394,7 @@ Proof.
   - apply Z.eqb_neq in E. right.
     destruct (negb (u_orig_max u <=? a)) eqn:E2; [discriminate|]. apply negb_false_iff in E2.
     destruct (set_immediately_inv a b (u_oracle u) u' H)
-      as (? & ? & ? & ? & ?).
+      as (? & ? & ? & ?).
     splits; try assumption; try lia.
 Qed.
 
@@ -383,11 +418,11 @@ Proof.
       destruct (urr_run u1 ops) as [[tr1 u2]|e] eqn:Hr; [|discriminate]. cbn [bind] in H.
       injection H as <- <-.
       destruct (urr_next_inv _ _ _ _ _ I Hn) as
-          [(v & -> & I1 & Hs & _)|[(-> & -> & _)|(v & -> & I1 & Hs & _)]]; cbn [produced].
+          [(v & -> & I1 & Hs & _)|[(-> & I1 & Hs & _)|(v & -> & I1 & Hs & _)]]; cbn [produced].
       * specialize (IH u1 old prev (em ++ [v]) tr1 u2 I1 Hold).
         rewrite <- app_assoc in IH. cbn [app] in IH. apply IH; [|assumption].
         intros x Hx. rewrite Hs. auto.
-      * apply (IH u old prev em tr1 u2); assumption.
+      * apply (IH u1 old prev em tr1 u2); try assumption. intros x Hx. rewrite Hs. auto.
       * specialize (IH u1 old (prev ++ em) [v] tr1 u2 I1 Hold).
         rewrite <- app_assoc in IH. cbn [app] in IH. apply IH; [|assumption].
         intros x Hx. rewrite Hs. auto.
@@ -413,7 +448,7 @@ Lemma urr_init_inv start stop oracle u :
 Proof.
   unfold urr_init. destruct (negb (start <? stop)); [discriminate|]. intros H.
   destruct (set_immediately_inv start stop oracle u H)
-    as (? & ? & ? & ? & ?). auto.
+    as (? & ? & ? & ?). auto.
 Qed.
 
 Theorem updatable_no_repeat start stop oracle ops tr :
@@ -451,14 +486,15 @@ Proof.
       destruct (urr_run u1 ops) as [[tr1 u2]|e] eqn:Hr; [|discriminate]. cbn [bind] in H.
       injection H as <- <-.
       destruct (urr_next_inv _ _ _ _ _ I Hn) as
-          [(v & -> & I1 & Hs & Hm & Hc & _)|[(-> & -> & _)|(v & -> & I1 & Hs & Hm & Hc & HPem)]];
+          [(v & -> & I1 & Hs & Hm & Hc & _)|[(-> & I1 & Hs & Hm & Hc & _)|(v & -> & I1 & Hs & Hm & Hc & HPem)]];
         cbn [produced].
       * destruct (IH u1 prev (em ++ [v]) tr1 u2 I1) as (p' & e' & I2 & Hs2 & Hc2 & HP2 & HA);
           try assumption; try (rewrite Hs; assumption); try (rewrite Hs, Hm; assumption).
         exists p', e'. splits; try assumption; try lia.
         rewrite <- app_assoc in HA. exact HA.
-      * destruct (IH u prev em tr1 u2 I) as (p' & e' & ?); try assumption.
-        exists p', e'. assumption.
+      * destruct (IH u1 prev em tr1 u2 I1) as (p' & e' & I2 & Hs2 & Hc2 & HP2 & HA);
+          try assumption; try (rewrite Hs; assumption); try (rewrite Hs, Hm; assumption).
+        exists p', e'. splits; try assumption; try lia.
       * destruct (IH u1 (prev ++ em) [v] tr1 u2 I1) as (p' & e' & I2 & Hs2 & Hc2 & HP2 & HA);
           try assumption; try (rewrite Hs; assumption).
         -- rewrite Hs, Hm.
@@ -494,7 +530,7 @@ Proof.
   { rewrite Hs, Hm. replace (start - start) with 0 by lia. apply Permutation_refl. }
   cbn [app] in HA.
   destruct (urr_next_inv _ _ _ _ _ I1 Hn) as
-      [(v & Hv & _)|[(_ & _ & Hcm & HPem)|(v & Hv & _)]]; try discriminate.
+      [(v & Hv & _)|[(_ & _ & _ & _ & _ & _ & Hcm & HPem)|(v & Hv & _)]]; try discriminate.
   split; [|lia].
   apply (Permutation_trans (Permutation_sym HA)).
   pose proof (ui_lo _ _ _ I1). pose proof (ui_min _ _ _ I1).
